@@ -662,3 +662,113 @@ def rule_validation_gates(ctx, P, r, ebad):
     else:
         r.fail('get_fragment_metadata: invalid header => -EBADHEADER', func=f.name, sig=f'invalid header edge returns {sorted(map(str, vals))}', loc=v.loc,
                msg=f'invalid header may return {sorted(map(str, vals))}')
+
+# ---------------------------------------------------------------- R16d
+def rule_exit_mirrors_init(ctx, P, r):
+    from .. import own as own_
+    O = own_.get(P)
+    cg = callgraph.get(P)
+    seen = set()
+    for be in IN_SCOPE_BACKENDS:
+        c = cg.common[be]
+        t = cg.op_tables[c['ops']]
+        init, ex = P.fn(t['init']), P.fn(t['exit'])
+        key = (init.name, ex.name)
+        # follow one level: xxx_init -> common init
+        chain = [init] + [P.fns[x] for i in init.insts() if i.op == 'call' for x in cg.callees(init, i) if x in P.fns and x != init.name and 'init' in x]
+        owned_fields = set()
+        desc_struct = None
+        for h in chain:
+            for i in h.insts():
+                if i.op == 'store':
+                    root, steps = access_path(P, h, i.ops[1])
+                    fl = fields_in_path(steps)
+                    vd = h.defs.get(strip_ptr_casts(h, i.ops[0]))
+                    if fl and vd is not None and vd.op == 'call' and any(x in O.returns_owned for x in cg.callees(h, vd)):
+                        rd = h.defs.get(root)
+                        if rd is not None and rd.op == 'call' and rd.callee in ('@malloc', '@calloc'):
+                            owned_fields.add(fl[-1])
+                            desc_struct = fl[-1][0]
+        if key in seen:
+            continue
+        seen.add(key)
+        # fields released in exit: passed to a freeing callee, directly or through a function pointer of the descriptor
+        freed_fields = set()
+        frees_desc = False
+        for i in ex.insts():
+            if i.op == 'call':
+                for ai, a in enumerate(i.ops):
+                    for cal in cg.callees(ex, i):
+                        if ai in O.frees.get(cal, ()) or (cal == '@free' and ai == 0):
+                            v = strip_ptr_casts(ex, a)
+                            d = ex.defs.get(v)
+                            if d is not None and d.op == 'load':
+                                root, steps = access_path(P, ex, d.ops[0])
+                                fl = fields_in_path(steps)
+                                if fl:
+                                    freed_fields.add(fl[-1])
+                            elif d is None or d.op != 'load':
+                                if v == ex.params[0][1] or (d is not None and d.op == 'bitcast'):
+                                    frees_desc = True
+                            if v == ex.params[0][1]:
+                                frees_desc = True
+        inst = f'{be}: exit {ex.name} mirrors init {init.name}'
+        missing = sorted(f'{a}.{b}' for a, b in owned_fields - freed_fields)
+        if missing:
+            r.fail(inst, func=ex.name, sig='exit does not release ' + ','.join(missing), loc=ex.mod.src,
+                   msg=f'init stores owned allocations into {missing} but {ex.name} never frees them')
+        elif not frees_desc:
+            r.fail(inst, func=ex.name, sig='descriptor not freed', loc=ex.mod.src, msg=f'{ex.name} does not free the descriptor itself')
+        else:
+            r.ok(inst, func=ex.name, loc=ex.mod.src, facts={'owned_fields': sorted(map(str, owned_fields)), 'freed_fields': sorted(map(str, freed_fields))})
+
+# ---------------------------------------------------------------- R16e
+def rule_single_owner(ctx, P, r):
+    from .. import own as own_, oblig
+    from ..retval import returns_from_block
+    O = own_.get(P)
+    cg = callgraph.get(P)
+    n = 0
+    for u in FRONT_UNITS:
+        for f in P.mod(u).functions.values():
+            C = Canon(P, f)
+            for c in f.insts():
+                if c.op != 'call' or c.callee not in P.fns or c.callee == '@free':
+                    continue
+                g = P.fns[c.callee]
+                fr = O.frees.get(g.name, set())
+                if not fr or g.name in ('@liberasurecode_encode_cleanup', '@liberasurecode_decode_cleanup', '@check_and_free_buffer', '@free_fragment_buffer'):
+                    continue
+                # return classes under which g frees
+                for pi in sorted(fr):
+                    if pi >= len(c.ops):
+                        continue
+                    A, _ = own_.aliases(g, [g.params[pi][1]])
+                    classes = set()
+                    for s in g.insts():
+                        if s.op == 'call' and any(ai in O.frees.get(x, ()) for x in cg.callees(g, s) for ai, a in enumerate(s.ops) if a in A):
+                            for v in returns_from_block(g, s.bb):
+                                classes.add('neg' if isinstance(v, int) and v < 0 else ('zero' if v == 0 else 'other'))
+                    n += 1
+                    arg = C.val(c.ops[pi])
+                    # later frees of the same object in the caller, per result class of c
+                    clash = None
+                    for v in oblig.representative_values(f, c.res) if c.res else [0]:
+                        cls = 'neg' if v < 0 else ('zero' if v == 0 else 'other')
+                        if cls not in classes:
+                            continue
+                        later = set()
+                        for kind, val, trail in oblig.simulate(f, c, v, stop_calls=tuple(k for k in O.frees)):
+                            if kind == 'event' and val.op == 'call':
+                                for ai, a in enumerate(val.ops):
+                                    if ai in O.frees.get(val.callee, ()) and C.val(a) == arg:
+                                        clash = (v, val)
+                    inst = f'{f.name}: {g.name}(arg {pi} = {arg}) frees it when returning {sorted(classes)}'
+                    if clash:
+                        v, s2 = clash
+                        r.fail(inst, func=f.name, sig=f'{g.name} and {s2.callee} both free {arg}', loc=s2.loc,
+                               msg=f'when {g.name} fails (returns {v}) it has already freed {arg}; the caller then passes the same object to {s2.callee} '
+                                   f'(line {s2.line}): double free / use after free')
+                    else:
+                        r.ok(inst + '; the caller does not free it again on those paths', func=f.name, loc=c.loc)
+    return n
